@@ -1,7 +1,7 @@
 (* Props/C01.v -- Pauli multiplication is exact (strings, phases, commutation).
    Property theorems only; each is closed by [exact] of a lemma of Proofs/ and followed by Print Assumptions.
    Semantics: [act a k = (e,k')] means a|k> = i^e|k'>, built from the four 2x2 matrices (Model/Ket.v). *)
-From PC Require Import Gen.Kernels Model.Base Model.Pauli Model.Ket Proofs.PauliFacts.
+From PC Require Import Gen.Kernels Model.Base Model.Pauli Model.Ket Proofs.PauliFacts Proofs.TorchTwins.
 
 (* the ket action is the textbook matrix of each site *)
 Theorem C01_action_is_the_matrix : forall s k r,
